@@ -46,6 +46,10 @@ class _ObjClasses(dict):
             self["ParsedRequirement"] = (PA.ParsedRequirement, list(PA.ParsedRequirement._fields))
             from packaging import metadata as MD
             self["_Validator"] = (MD._Validator, ["name", "raw_name", "added"])
+            # --- x5
+            self["SpecifierSet"] = (SP.SpecifierSet, ["_specs", "_prereleases"])
+            from packaging import requirements as RQ
+            self["Requirement"] = (RQ.Requirement, ["name", "url", "extras", "specifier", "marker"])
 
     def __contains__(self, k):
         self._load()
@@ -79,9 +83,9 @@ def enc_val(v) -> str:
     if isinstance(v, list):
         return "L[" + ",".join(enc_val(x) for x in v) + "]"
     if isinstance(v, (set, frozenset)):        # x2: members sorted by wire form (hash-table order is not modelled)
-        return "O" + type(v).__name__ + "{items=L[" + ",".join(sorted(enc_val(x) for x in v)) + "]}"
+        return "O" + ("frozenset" if isinstance(v, frozenset) else "set") + "{items=L[" + ",".join(sorted(enc_val(x) for x in v)) + "]}"
     tn = type(v).__name__
-    if tn in OPAQUE_CLASSES:                      # x3: objects of other libraries / untracked classes, known by class and text
+    if tn in OPAQUE_CLASSES and tn not in TRANSPARENT:   # x3: objects of other libraries / untracked classes, known by class and text
         return "Oopaque{cls=" + enc_val(tn) + ",str=" + enc_val(str(v)) + "}"
     if tn == "NegativeInfinityType":
         return "m"
@@ -99,6 +103,9 @@ def enc_val(v) -> str:
 
 
 OPAQUE_CLASSES = {"SpecifierSet", "Requirement", "PurePosixPath", "PureWindowsPath"}
+# x5: classes that travel as objects (fields) while a function of X5_FUNCS is generated / run, although they are opaque for
+# the functions of other modules
+TRANSPARENT: set = set()
 
 
 class _P:
@@ -1229,6 +1236,303 @@ FUNCS.update({
 })
 
 
+# ------------------------------------------------------------------------------------------------ x5: SpecifierSet
+import contextlib
+
+
+@contextlib.contextmanager
+def _transparent(name):
+    """while a function of X5_FUNCS is generated / answered, SpecifierSet objects travel with their fields"""
+    if name in X5_FUNCS:
+        TRANSPARENT.update({"SpecifierSet", "Requirement"})
+        try:
+            yield
+        finally:
+            TRANSPARENT.difference_update({"SpecifierSet", "Requirement"})
+    else:
+        yield
+
+
+class _OrderedFS(frozenset):
+    """a frozenset that iterates in a given order (what `PySet.order env` computes on the Lean side)"""
+    def __new__(cls, items, order):
+        o = frozenset.__new__(cls, items)
+        o._order = list(order)
+        return o
+
+    def __iter__(self):
+        return iter(self._order)
+
+
+def _order_by(prio, members):
+    """PySet.orderBy: members of prio that are in the set (in the order of prio), then the others in insertion order; the
+    insertion order of a set that travelled is the order of the wire forms; equality is that of the wire forms"""
+    ms = sorted(members, key=enc_val)
+    wire = {enc_val(m): m for m in ms}
+    pw = [enc_val(p) for p in prio]
+    return [wire[w] for w in pw if w in wire] + [m for m in ms if enc_val(m) not in pw]
+
+
+def _apply_order(env, vals):
+    prio = dict(env).get("frozenset.order")
+    out = []
+    for v in vals:
+        for o in (v, getattr(v, "specifier", None)):          # a SpecifierSet, or the one a Requirement holds
+            if type(o).__name__ == "SpecifierSet" and isinstance(getattr(o, "_specs", None), frozenset):
+                order = _order_by(prio, o._specs) if prio is not None else sorted(o._specs, key=enc_val)
+                o._specs = _OrderedFS(o._specs, order)
+        out.append(v)
+    return out
+
+
+def _sset_members(rng):
+    """0–4 Specifier objects around one version, some equal under `_canonical_spec` but spelled differently"""
+    from packaging import specifiers as SP
+    from gen import versions as GV
+    from gen import specrel as R
+    n = rng.choice([0, 1, 1, 2, 2, 3, 4])
+    ms, base = [], None
+    for _ in range(n):
+        sp, v = _spec_obj(rng)
+        base = base or v
+        ms.append(sp)
+        if rng.random() < 0.3:                    # the same clause again: other spelling / other override
+            op, ver = sp._spec
+            alt = rng.choice([ver + ".0" if op not in ("===", "~=") and not ver.endswith(".*") else ver, ver.upper(), " " + ver])
+            try:
+                ms.append(SP.Specifier(op + alt, prereleases=rng.choice([None, True, False])))
+            except Exception:
+                pass
+    rng.shuffle(ms)
+    return ms, base
+
+
+def _sset_obj(rng):
+    from packaging import specifiers as SP
+    from gen import versions as GV
+    ms, base = _sset_members(rng)
+    s = SP.SpecifierSet(ms, prereleases=rng.choice([None, None, None, True, False]))
+    return s, (base if base is not None else GV.struct(rng))
+
+
+def _order_env(rng, s):
+    members = list(s._specs)
+    rng.shuffle(members)
+    r = rng.random()
+    if r < 0.1:
+        members = members[: len(members) // 2]       # a partial priority list: the rest follows in insertion order
+    return Env([("frozenset.order", members)]) if r < 0.95 else Env([])
+
+
+def _g_sset_self(rng):
+    return [_sset_obj(rng)[0]]
+
+
+def _g_sset_self_env(rng):
+    s = _sset_obj(rng)[0]
+    return [_order_env(rng, s), s]
+
+
+def _g_sset_init(rng):
+    from packaging import specifiers as SP
+    ms, _ = _sset_members(rng)
+    r = rng.random()
+    if r < 0.55:
+        parts = [str(m) for m in ms]
+        parts = [rng.choice(["", " ", "\t"]) + p + rng.choice(["", " ", "\u2003"]) for p in parts]
+        if rng.random() < 0.3:
+            parts.insert(rng.randrange(len(parts) + 1), rng.choice(["", " ", "\u00a0"]))
+        if rng.random() < 0.2:
+            parts.insert(rng.randrange(len(parts) + 1), rng.choice(["1.0", "=>1", "==1.*.0", "~=1", "<1.0+local", "===", "== 1;", "!1"]))
+        spec = ",".join(parts)
+    elif r < 0.9:
+        spec = rng.choice([list(ms), tuple(ms), iter(list(ms))])
+    else:
+        spec = rng.choice([None, 3, []])          # members other than Specifier are outside the annotation (trusted)
+    return [object.__new__(SP.SpecifierSet), spec, rng.choice([None, None, True, False])]
+
+
+def _g_sset_setter(rng):
+    return [_sset_obj(rng)[0], rng.choice([None, True, False])]
+
+
+def _sset_other(rng, s):
+    from packaging import specifiers as SP
+    r = rng.random()
+    if r < 0.3:                                   # the same members, re-spelled through the string form
+        try:
+            return SP.SpecifierSet(",".join(str(m) for m in s._specs), prereleases=rng.choice([None, True, False]))
+        except Exception:
+            return _sset_obj(rng)[0]
+    if r < 0.65:
+        return _sset_obj(rng)[0]
+    if r < 0.8:
+        return str(rng.choice([s, _sset_obj(rng)[0]]))
+    if r < 0.9 and s._specs:
+        return rng.choice(sorted(s._specs, key=str))
+    return rng.choice([None, 1, "junk", "", ["==1"]])
+
+
+def _g_sset_two(rng):
+    s = _sset_obj(rng)[0]
+    return [s, _sset_other(rng, s)]
+
+
+def _g_sset_contains(rng):
+    s, v = _sset_obj(rng)
+    item = _cand(rng, v)
+    r = rng.random()
+    if r < 0.2:
+        item = str(item)
+    elif r < 0.25:
+        item = rng.choice(["junk", "", "1.0.x"])
+    return [_order_env(rng, s), s, item, rng.choice([None, None, True, False]), rng.choice([None, None, True, False])]
+
+
+def _g_sset_dunder_contains(rng):
+    return _g_sset_contains(rng)[:3]
+
+
+def _g_sset_filter(rng):
+    s, v = _sset_obj(rng)
+    items = [_cand(rng, v) for _ in range(rng.choice([0, 1, 2, 3, 4, 6]))]
+    if rng.random() < 0.25:
+        items = [str(x) if rng.random() < 0.5 else x for x in items]
+    if rng.random() < 0.05:
+        items.insert(rng.randrange(len(items) + 1), "junk")
+    return [_order_env(rng, s), s, items, rng.choice([None, None, None, True, False])]
+
+
+def _g_spec_self(rng):
+    return [_spec_obj(rng)[0]]
+
+
+def _g_spec_two(rng):
+    from packaging import specifiers as SP
+    a, _ = _spec_obj(rng)
+    op, ver = a._spec
+    r = rng.random()
+    if r < 0.35:
+        alt = rng.choice([ver + ".0" if op not in ("===", "~=") and not ver.endswith(".*") else ver, ver.upper(), " " + ver, ver])
+        try:
+            b = SP.Specifier(op + alt, prereleases=rng.choice([None, True, False]))
+        except Exception:
+            b = a
+    elif r < 0.6:
+        b = _spec_obj(rng)[0]
+    elif r < 0.85:
+        b = rng.choice([str(a), op + " " + ver, ver, "junk", "", "==1.0"])
+    else:
+        b = rng.choice([None, 1, (op, ver)])
+    return [a, b]
+
+
+_SP = "packaging.specifiers"
+FUNCS.update({
+    "Specifier.__str__": (_SP, "Specifier.__str__", _g_spec_self),
+    "Specifier._canonical_spec": (_SP, "Specifier._canonical_spec", _g_spec_self),
+    "Specifier.__hash__": (_SP, "Specifier.__hash__", _g_spec_self),
+    "Specifier.__eq__": (_SP, "Specifier.__eq__", _g_spec_two),
+    "SpecifierSet.__init__": (_SP, "SpecifierSet.__init__", _g_sset_init),
+    "SpecifierSet.prereleases": (_SP, "SpecifierSet.prereleases", _g_sset_self_env),
+    "SpecifierSet.prereleases__set": (_SP, "SpecifierSet.prereleases.fset", _g_sset_setter),
+    "SpecifierSet.__str__": (_SP, "SpecifierSet.__str__", _g_sset_self_env),
+    "SpecifierSet.__hash__": (_SP, "SpecifierSet.__hash__", _g_sset_self),
+    "SpecifierSet.__and__": (_SP, "SpecifierSet.__and__", _g_sset_two),
+    "SpecifierSet.__eq__": (_SP, "SpecifierSet.__eq__", _g_sset_two),
+    "SpecifierSet.__len__": (_SP, "SpecifierSet.__len__", _g_sset_self),
+    "SpecifierSet.__iter__": (_SP, "SpecifierSet.__iter__", _g_sset_self_env),
+    "SpecifierSet.__contains__": (_SP, "SpecifierSet.__contains__", _g_sset_dunder_contains),
+    "SpecifierSet.contains": (_SP, "SpecifierSet.contains", _g_sset_contains),
+    "SpecifierSet.filter": (_SP, "SpecifierSet.filter", _g_sset_filter),
+})
+
+
+# ---- Requirement
+def _req_text(rng):
+    from props import C08
+    r = rng.random()
+    if r < 0.1:
+        return rng.choice(C08.WITNESS_TEXTS)
+    s = C08.render(rng, C08.req_struct(rng), loose=rng.random() < 0.2)
+    if rng.random() < 0.15:
+        s = C08.damage_req(rng, s)
+    return s
+
+
+def _req_obj(rng):
+    from packaging import requirements as RQ
+    for _ in range(200):
+        try:
+            return RQ.Requirement(_req_text(rng))
+        except Exception:
+            continue
+    return RQ.Requirement("a")
+
+
+def _g_req_init(rng):
+    from packaging import requirements as RQ
+    args = [object.__new__(RQ.Requirement), _req_text(rng)]
+    return [_record("packaging.markers", MARKER_ORACLES, RQ.Requirement.__init__, args)] + args
+
+
+def _g_req_self(rng):
+    return [_req_obj(rng)]
+
+
+def _g_req_self_env(rng):
+    r = _req_obj(rng)
+    return [_order_env(rng, r.specifier), r]
+
+
+def _g_req_parts(rng):
+    r = _req_obj(rng)
+    return [_order_env(rng, r.specifier), r, rng.choice([r.name, r.name, "other-name", ""])]
+
+
+def _g_req_two(rng):
+    from packaging import requirements as RQ
+    from props import C08
+    a = _req_obj(rng)
+    k = rng.random()
+    if k < 0.35:                                  # the same requirement, written again (other spelling / order)
+        try:
+            b = RQ.Requirement(str(a))
+        except Exception:
+            b = a
+    elif k < 0.55:                                # one part differs
+        st = str(a)
+        b = None
+        for cand in (st.replace(a.name, a.name.upper(), 1), st + " ; os_name == 'x'", st.split(";")[0], a.name):
+            try:
+                b = RQ.Requirement(cand)
+                break
+            except Exception:
+                continue
+        b = b or a
+    elif k < 0.9:
+        b = _req_obj(rng)
+    else:
+        b = rng.choice([None, 1, str(a)])
+    return [a, b]
+
+
+_RQ = "packaging.requirements"
+FUNCS.update({
+    "Requirement.__init__": (_RQ, "Requirement.__init__", _g_req_init),
+    "Requirement._iter_parts": (_RQ, "Requirement._iter_parts", _g_req_parts),
+    "Requirement.__str__": (_RQ, "Requirement.__str__", _g_req_self_env),
+    "Requirement.__hash__": (_RQ, "Requirement.__hash__", _g_req_self),
+    "Requirement.__eq__": (_RQ, "Requirement.__eq__", _g_req_two),
+})
+EXT_FUNCS |= {"Requirement.__init__"}
+X5_FUNCS = {n for n in FUNCS if n.startswith("SpecifierSet.") or n.startswith("Requirement.")}
+ORDER_FUNCS = {"Requirement._iter_parts", "Requirement.__str__", "SpecifierSet.prereleases", "SpecifierSet.__str__", "SpecifierSet.__iter__", "SpecifierSet.__contains__",
+               "SpecifierSet.contains", "SpecifierSet.filter"}
+SETTER_FUNCS = {"SpecifierSet.prereleases__set"}
+SYM_HASH_FUNCS.update({"Specifier.__hash__": _SP, "SpecifierSet.__hash__": _SP, "Requirement.__hash__": _RQ})
+
+
 class _Src:
     def cases(self, rng, n, names):
         """n `src.call` cases spread over the named functions"""
@@ -1236,7 +1540,9 @@ class _Src:
         for i in range(n):
             name = names[i % len(names)]
             args = FUNCS[name][2](rng)
-            yield ("src.call", [name] + [enc_val(a) for a in args])
+            with _transparent(name):                                     # x5
+                case = ("src.call", [name] + [enc_val(a) for a in args])
+            yield case
 
     def real(self, args):
         name = args[0]
@@ -1247,6 +1553,8 @@ class _Src:
             return "gone " + type(e).__name__
         vals = [dec_val(a) for a in (args[2:] if name in EXT_FUNCS else args[1:])]     # the oracle table is not decoded
         undo = None
+        if name in ORDER_FUNCS:                                           # x5: the iteration order of frozenset fields
+            vals = _apply_order(vals.pop(0), vals)
         if name in ENV_FUNCS:
             env = vals.pop(0)
             undo = _apply_env([(k, (list(v) if k == "platform_tags" else v)) for k, v in env])
@@ -1272,9 +1580,10 @@ class _Src:
                 r = f(*pos, **kw)
                 if name in STATE_FUNCS:
                     return "ok " + enc_val((r, pos[0]))
-                if name.endswith(".__init__"):
+                if name.endswith(".__init__") or name in SETTER_FUNCS:
                     r = pos[0]                     # x3: the translated `__init__` hands back the initialised object
-                return "ok " + enc_val(r)          # a generator's body runs here, inside the try
+                with _transparent(name):           # x5
+                    return "ok " + enc_val(r)      # a generator's body runs here, inside the try
         except RecursionError:
             return core.RESOURCE_LIMIT
         except Exception as e:
@@ -1302,8 +1611,8 @@ def with_src(prop, functions, module, theorems, share=12):
     become proof obligations of the property, the translator output `PySrc` is regenerated before its build, and
     1/`share` of its correspondence budget runs the translated source against the real functions (`src.call`)."""
     cls = type(prop)
-    prop.lean_modules = list(cls.lean_modules) + [m for m in ([module] if isinstance(module, str) else module)
-                                                  if m not in cls.lean_modules]
+    prop.lean_modules = list(prop.lean_modules) + [m for m in ([module] if isinstance(module, str) else module)
+                                                   if m not in prop.lean_modules]       # x5: repeated application adds up
     prop.theorems = list(prop.theorems) + [t for t in theorems if t not in prop.theorems]
     prop.generated = list(prop.generated) + (["PySrc"] if "PySrc" not in prop.generated else [])
     prop.src_functions = list(getattr(prop, "src_functions", [])) + list(functions)
